@@ -161,7 +161,8 @@ fn call_int(args: &[Object]) -> Result<Object, Error> {
         }
     };
 
-    Ok(Object::int(result))
+    // the converted value may not fit in an integer (e.g. int(1e30) or int("4611686018427387904"))
+    Object::checked_int(Some(result))
 }
 
 /// Casts the given object to an object of type float
